@@ -77,6 +77,7 @@ fn main() {
         }
     }
     vharness::install_panic_hook();
+    vharness::runner::start_hang_watchdog();
     let code = vharness::props::run(&ctx);
     std::process::exit(code);
 }
